@@ -316,6 +316,18 @@ def main():
         if rng.random() < 0.35:
             flags["solver_threads"] = 1  # queries are answered strictly one after the other (exploration order)
         scen.append((arms, replies, rng.random() < 0.75, flags, 3 if len(need) >= 2 else 1))
+    # systematic cache histories: an unsat answer (with a full, an empty, or an error-decorated core) strictly before a
+    # satisfiable query, queries answered one at a time, --cache-solver on: the later sat must still count
+    for first in ("unsat", "unsatnocore", "unsaterr"):
+        for a1 in "PF":
+            for a2 in "PF":
+                for extra in ((), ("S",), ("K",)):
+                    arms = (a1, a2) + extra
+                    for order in (0, 1):  # either arm may be explored (and answered) first
+                        replies = {order: first, 1 - order: "sat"}
+                        if extra == ("K",):
+                            replies[2] = "unsat"
+                        scen.append((arms, replies, True, {"cache_solver": True, "solver_threads": 1}, 1))
     rng.shuffle(scen)
     tasks = [("scen", scen[i : i + 8], run.seed) for i in range(0, len(scen), 8)]
     mains = [[["pass", "pass"]], [["pass"], ["fail"]], [["fail"], ["pass"]], [["pass", "stuck"]], [["revert"], ["pass"]], [["pass"], ["pass", "pass"]], [["pass", "fail", "pass"]], [["stuck"]]]
